@@ -14,6 +14,9 @@ import (
 )
 
 func WriteTar(ctx context.Context, fs FS, w io.Writer) error {
+	// a filtered FS may report hard links whose first member is not part of
+	// the view: the first visible member becomes the file (as in Send)
+	fs = WithHardlinkReset(fs)
 	tw := tar.NewWriter(w)
 	err := fs.Walk(ctx, "/", func(path string, entry os.DirEntry, err error) error {
 		if err != nil && !errors.Is(err, os.ErrNotExist) {
